@@ -535,6 +535,54 @@ def constructor_snapshots(project: Project, classes=None) -> List[dict]:
     return out
 
 
+def setter_bypasses(project: Project, classes=None) -> List[dict]:
+    """Pattern F — a property whose setter does more than store (`self._values = v; self._pairs_cache = None`: it also drops
+    what was derived from the old value), and code of the class that assigns the backing field directly
+    (`out._values = values`) without dropping the same things: the object keeps derived state of the old value.
+    One record per such store: dict(fi, node, prop, backing, extras, cls)."""
+    out = []
+    for cq, c in sorted(project.classes.items()):
+        if classes is not None and cq not in classes:
+            continue
+        for prop, st in sorted(c.setters.items()):
+            if not isinstance(st.node, ast.FunctionDef) or len(st.node.args.args) < 2:
+                continue
+            me, val = st.node.args.args[0].arg, st.node.args.args[1].arg
+            backing, extras = None, {}
+            for n in ast.walk(st.node):
+                if isinstance(n, ast.Assign) and len(n.targets) == 1 and isinstance(n.targets[0], ast.Attribute) \
+                        and isinstance(n.targets[0].value, ast.Name) and n.targets[0].value.id == me:
+                    a = n.targets[0].attr
+                    if isinstance(n.value, ast.Name) and n.value.id == val and backing is None:
+                        backing = a
+                    elif (isinstance(n.value, ast.Constant) and n.value.value is None) or (
+                            isinstance(n.value, (ast.List, ast.Dict, ast.Tuple)) and not getattr(n.value, "elts", getattr(n.value, "keys", []))):
+                        extras[a] = n      # an invalidation: what followed the old value is dropped
+            if backing is None or not extras or backing == prop:
+                continue
+            # only resets count: the setter clears / recomputes something that followed the old value
+            for m in c.methods.values():
+                if not isinstance(m.node, ast.FunctionDef) or m.name in ("__init__", "__setstate__", "__new__") or m is st:
+                    continue
+                if m.kind in ("property", "setter") and m.name == prop:
+                    continue
+                for n in ast.walk(m.node):
+                    if not (isinstance(n, ast.Assign) and len(n.targets) == 1 and isinstance(n.targets[0], ast.Attribute)
+                            and n.targets[0].attr == backing and isinstance(n.targets[0].value, ast.Name)):
+                        continue
+                    obj = n.targets[0].value.id
+                    also = {x.targets[0].attr for x in ast.walk(m.node) if isinstance(x, ast.Assign) and len(x.targets) == 1
+                            and isinstance(x.targets[0], ast.Attribute) and isinstance(x.targets[0].value, ast.Name)
+                            and x.targets[0].value.id == obj}
+                    missing = sorted(set(extras) - also)
+                    if missing:
+                        out.append(dict(fi=m, node=n, prop=prop, backing=backing, extras=missing, cls=c,
+                                        why=f"`{ast.unparse(n)[:60]}` in {c.name}.{m.name} assigns the field behind the property `{prop}` "
+                                            f"directly; the setter of `{prop}` also resets {missing} (state derived from the old "
+                                            f"value), which therefore survives: later calls answer from the stale `{missing[0]}`"))
+    return out
+
+
 def check(project: Project, rep, rule: str = "ST-CACHE"):
     """module-level caches written by the code a check analysed (and what it calls): a cache that is keyed by too little
     makes the analysed function's result depend on earlier calls — whatever that function computes.  Only the two memo
@@ -587,4 +635,7 @@ def check(project: Project, rep, rule: str = "ST-CACHE"):
     for r in constructor_snapshots(project, reached):
         n += 1
         rep.refuted(rule, r["fi"], r["node"], r["why"], construct=f"{r['cls'].qualname}: constructor snapshot {r['attr']}")
+    for r in setter_bypasses(project, reached):
+        n += 1
+        rep.refuted(rule, r["fi"], r["node"], r["why"], construct=f"{r['fi'].qualname}: setter of {r['prop']} bypassed")
     return n
